@@ -320,6 +320,11 @@ def run(P, R, L):
     R.clause("PAIR-10", "a table builder that was finalized/abandoned is removed from the compaction state on every path (a later abandon() of a closed "
              "builder would panic the background thread while the scheduled flag is set)")
     K.pair10_builder_slot(P, R, L)
+    R.clause("LCK-5", "version-node RwLocks are never acquired in a conflicting mode while a version-node guard is live in the same body "
+             "(class-level: parking_lot RwLock is not re-entrant)")
+    K.lck5_version_rwlock(P, R, L)
+    R.clause("LCK-6", "lock order: the manual-compaction configuration mutex is acquired only under the DB mutex")
+    K.lck6_manual_config_lock_order(P, R, L)
     R.clause("ORD-17", "a manual compaction request observed by a worker run is always consumed (done written, slot cleared)")
     K.ord17_manual_slot(P, R, L)
     R.not_decided += ["that the background thread never panics (value-level reachability of unwrap/assert/index sites)",
